@@ -358,7 +358,7 @@ func TestVerifReplay(t *testing.T) {
 		if o.p != nil {
 			fmt.Printf("VERIF-REPLAY-PANIC %%v\n", o.p)
 		}
-	case <-time.After(8 * time.Second):
+	case <-time.After(15 * time.Second):
 		buf := make([]byte, 1<<20)
 		n := runtime.Stack(buf, true)
 		fmt.Printf("VERIF-REPLAY hang\n%%s\n", buf[:n])
@@ -435,7 +435,11 @@ func buildReplayBinary(dir, pkg, outDir string) (string, error) {
 	if pkg == "" {
 		target = "."
 	}
-	cmd := exec.Command("go", "test", "-c", "-vet=off", "-overlay", ovPath, "-o", bin, target)
+	mf, err := modfileCopy()
+	if err != nil {
+		return "", err
+	}
+	cmd := exec.Command("go", "test", "-c", "-vet=off", "-modfile="+mf, "-overlay", ovPath, "-o", bin, target)
 	cmd.Dir = repoDir
 	cmd.Env = append(cleanGoEnv(), "GOFLAGS=-mod=mod", "GOPROXY=off")
 	var buf bytes.Buffer
@@ -513,9 +517,9 @@ func replayCex(cf *cexFile, cexPath, outDir string) replayResult {
 				}
 				short = strings.NewReplacer("(", "", ")", "", "*", "").Replace(short)
 				if site == "" || strings.Contains(strings.NewReplacer("(", "", ")", "", "*", "").Replace(out), short) {
-					return replayResult{Reproduced: true, Detail: "harness did not return within 8s; a goroutine is parked in " + site}
+					return replayResult{Reproduced: true, Detail: "harness did not return within 15s; a goroutine is parked in " + site}
 				}
-				return replayResult{Reproduced: true, Detail: "harness did not return within 8s"}
+				return replayResult{Reproduced: true, Detail: "harness did not return within 15s"}
 			}
 		case "fatal":
 			if line == "" && runErr != nil && !strings.Contains(out, "panic:") {
